@@ -501,8 +501,9 @@ pub fn run_c01(tier: &str, sink: &Sink) -> (EngA, AOut) {
     (e, AOut { counters: snapshot(&c), samples, per_dev_kind, per_op: BTreeMap::new() })
 }
 
-/// every operator form with MAX-1 / MAX at each numeric position; evaluated on a dedicated universe
-fn limit_family_c01(e: &EngA, sink: &Sink, c: &ACounters) {
+/// every operator form with MAX-1 / MAX at each numeric position (+ hyphen forms, wide programs);
+/// evaluated on a dedicated universe
+pub fn limit_engine(e: &EngA) -> (EngA, Vec<Prog>) {
     let big = [MAX_SAFE - 1, MAX_SAFE];
     let mut progs: Vec<Prog> = vec![];
     for op in ALL_OPS {
@@ -514,6 +515,18 @@ fn limit_family_c01(e: &EngA, sink: &Sink, c: &ACounters) {
                     progs.push(prog_single(op, &Partial { c: comps, pre: String::new(), build: String::new() }));
                 }
             }
+        }
+    }
+    for &b in &big {
+        let one = |v: Vec<Cmp>| Partial { c: v, pre: String::new(), build: String::new() };
+        for (lo, hi) in [
+            (one(vec![Cmp::N(1)]), one(vec![Cmp::N(b)])),
+            (one(vec![Cmp::N(1)]), one(vec![Cmp::N(1), Cmp::N(b)])),
+            (one(vec![Cmp::N(1)]), one(vec![Cmp::N(1), Cmp::N(1), Cmp::N(b)])),
+            (one(vec![Cmp::N(b)]), one(vec![Cmp::X])),
+            (one(vec![Cmp::N(1), Cmp::N(b)]), one(vec![Cmp::N(b), Cmp::N(b)])),
+        ] {
+            progs.push(vec![Alt::Hyphen(lo, hi)]);
         }
     }
     // wide programs: many alternatives / many comparators / long identifiers, so that the range
@@ -547,6 +560,8 @@ fn limit_family_c01(e: &EngA, sink: &Sink, c: &ACounters) {
             vs.push(ver(b, b, b, t));
         }
     }
+    // C01 quantifies over versions with components in [0, MAX_SAFE_INTEGER]
+    vs.retain(|v| v.major <= MAX_SAFE && v.minor <= MAX_SAFE && v.patch <= MAX_SAFE);
     let lim = EngA {
         tier: e.tier.clone(),
         al: alpha(&e.tier),
@@ -557,6 +572,11 @@ fn limit_family_c01(e: &EngA, sink: &Sink, c: &ACounters) {
         core: vec![],
         alts: vec![],
     };
+    (lim, progs)
+}
+
+fn limit_family_c01(e: &EngA, sink: &Sink, c: &ACounters) {
+    let (lim, progs) = limit_engine(e);
     for p in &progs {
         lim.check_c01_limit(p, sink, c);
     }
@@ -620,6 +640,13 @@ fn lt_major_site(prog: &Prog, u: &Universe, diff: &Bits, sat: &Bits) -> bool {
         }
     }
     true
+}
+
+/// true iff some bound version of `r` has a component above MAX_SAFE_INTEGER
+pub fn printed_component_above_max(r: &Range) -> bool {
+    intervals_of(r).iter().any(|iv| {
+        [iv.lo_version(), iv.hi_version()].into_iter().flatten().any(|v| v.major > MAX_SAFE || v.minor > MAX_SAFE || v.patch > MAX_SAFE)
+    })
 }
 
 /// texts of wide ranges (printed form far beyond 256 bytes) used by the C13 wide family
@@ -789,6 +816,11 @@ fn replay_other(prop: &str, e: &EngA, case: &Value, sink: &Sink) {
             };
             e.check_c02(&a, &b, case["lists"].as_bool().unwrap_or(true), sink, &c);
         }
+        ("C03", "limit-prog") | ("C11", "limit-prog") | ("C13", "limit-prog") => {
+            let prog = prog_from(&case["prog"]);
+            let (lim, _) = limit_engine(e);
+            lim.check_misc_kind(prop, &prog, &[], sink, &c, "limit-prog");
+        }
         ("C03", _) | ("C11", _) | ("C13", _) => {
             let prog = prog_from(&case["prog"]);
             let devs: Vec<Dev> = case["devs"].as_array().map(|a| a.iter().map(dev_from).collect()).unwrap_or_default();
@@ -804,6 +836,10 @@ impl EngA {
     /// per-program clauses of C03 (gate on written comparators, build invariance),
     /// C11 (min_version) and C13 (round trip).
     pub fn check_misc(&self, prop: &str, prog: &Prog, devs: &[Dev], sink: &Sink, c: &ACounters) {
+        self.check_misc_kind(prop, prog, devs, sink, c, "prog")
+    }
+
+    pub fn check_misc_kind(&self, prop: &str, prog: &Prog, devs: &[Dev], sink: &Sink, c: &ACounters, kind: &str) {
         let u = &self.u;
         let text = render(prog, devs);
         c.programs.fetch_add(1, AO::Relaxed);
@@ -812,7 +848,7 @@ impl EngA {
             return; // C01's business
         };
         let Ok(sat) = real_sat_bits(u, &r) else { return };
-        let case = || json!({"engine":"A","kind":"prog","prog":prog_json(prog),"devs":devs.iter().map(dev_json).collect::<Vec<_>>(),"tier":self.tier});
+        let case = || json!({"engine":"A","kind":kind,"prog":prog_json(prog),"devs":devs.iter().map(dev_json).collect::<Vec<_>>(),"tier":self.tier});
         match prop {
             "C03" => {
                 let Some(sets) = desugar(prog) else { return };
@@ -930,8 +966,11 @@ impl EngA {
                 if !sat.is_empty() {
                     c.nontrivial.fetch_add(1, AO::Relaxed);
                 }
+                // call-site tag: the printed form contains a numeric component above MAX_SAFE_INTEGER
+                // (a desugaring arm computed component + 1 at the limit), which Range::parse rejects
+                let site = if printed_component_above_max(&r) { "site=bound-above-max-safe-integer|" } else { "" };
                 check_roundtrip(u, &r, &within, &sat, true, &mut |clause, w, obs, exp| {
-                    sink.report(clause, format!("text={}|v={}", text, w), case(), obs, exp);
+                    sink.report(clause, format!("{}text={}|v={}", site, text, w), case(), obs, exp);
                 });
             }
             _ => {}
@@ -968,6 +1007,9 @@ pub fn run_misc(prop: &str, tier: &str, sink: &Sink) -> (EngA, AOut) {
             e.check_misc(prop, &e.level2_or(i, j), &[], sink, &c);
         }
     });
+    // limit family (MAX_SAFE_INTEGER at every position of every form, wide programs) on its own universe
+    let (lim, lprogs) = limit_engine(&e);
+    lprogs.par_iter().for_each(|p| lim.check_misc_kind(prop, p, &[], sink, &c, "limit-prog"));
     let samples = vec![
         json!({"program": render(&l1[l1.len() / 5], &[])}),
         json!({"program": render(&e.level2_and(n / 2, n / 5), &[])}),
@@ -982,8 +1024,31 @@ pub fn run_misc(prop: &str, tier: &str, sink: &Sink) -> (EngA, AOut) {
 /// /verif/fixtures/npm-7.6.2/ (thorough alphabet, independent of the tier)
 pub fn fixture_programs(e: &EngA) -> Vec<(Prog, Vec<Dev>)> {
     let mut out: Vec<(Prog, Vec<Dev>)> = vec![];
-    for p in e.level1() {
-        out.push((p, vec![]));
+    // level 1: every single comparator; hyphen pairs over the partials whose qualifier sits on a
+    // numeric triple, plus wildcard-qualified partials against the core partials (keeps the
+    // fixture file small)
+    let wildq = |p: &Partial| (!p.pre.is_empty() || !p.build.is_empty()) && p.c.iter().any(|c| matches!(c, Cmp::X));
+    for op in ALL_OPS {
+        for p in &e.all_partials {
+            out.push((prog_single(op, p), vec![]));
+        }
+    }
+    let plain: Vec<&Partial> = e.nobuild_partials.iter().filter(|p| !wildq(p)).collect();
+    for a in &plain {
+        for b in &plain {
+            out.push((vec![Alt::Hyphen((*a).clone(), (*b).clone())], vec![]));
+        }
+    }
+    let corep: Vec<Partial> = {
+        let mut v: Vec<Partial> = e.core.iter().map(|(_, p)| p.clone()).collect();
+        v.dedup();
+        v
+    };
+    for a in e.nobuild_partials.iter().filter(|p| wildq(p)) {
+        for b in &corep {
+            out.push((vec![Alt::Hyphen(a.clone(), b.clone())], vec![]));
+            out.push((vec![Alt::Hyphen(b.clone(), a.clone())], vec![]));
+        }
     }
     // single deviations of every single comparator over {x,0,1} (no build)
     let small = partials(&[Cmp::X, Cmp::N(0), Cmp::N(1)], &[("", ""), ("a", "")]);
